@@ -52,7 +52,7 @@ Print Assumptions C01_arrivals_wait.
     another request re-enters between wake-up and resumption" the woken waiter
     comes back labelled fetching next to the new fetcher. *)
 Theorem C01_legacy_refuted :
-  let c := {| wk_waiters := 1; wk_ttl := 1; wk_delay_ms := 2100; wk_main2 := TOther;
+  let c := {| wk_waiters := 1; wk_ttl := 1; wk_delay_ms := 2100; wk_second := true; wk_main2 := TOther;
               wk_after_resume := []; wk_after_second := [] |} in
   let '(m2, a1, _) := wk_model true c in
   m2 = TUpstream LFetching /\ a1 = [TUpstream LFetching].
